@@ -42,6 +42,14 @@ CLAIMED = {
    technique="bounded-exhaustive enumeration at component level: all (bit,context) sequences up to a length bound from every MQ start state, all small coefficient blocks x orientation x 64 code-block styles through T1 with the encoder's reported pass lengths, all small signals/geometries/origins through the 5/3 DWT, RCT cube",
    text="MQ: 94 start states x every sequence of length <= 8 (thorough 10) over 2 contexts, every sequence of length 12 (14) from the default state, long 19-context patterns; marker-emulation and trailing-0xFF checks on every output. T1: every block over {0,+-1,+-2} (<= 5-6 samples) / {0,+-1} (<= 8-9) / {0,1,-21,32,-63} (<= 4, reaches bypass bit-planes) for all shapes within 5x5 x 4 orientations x all 64 style combinations, plus larger family blocks (2^24 magnitudes, 64x64). DWT: all 1-D signals of length <= 8 over {-2..2} x both parities; all (w,h) <= 17^2 and 255..257 x 1..3, levels 0..8, 64 origins. RCT: [-8,8]^3 and boundary triples to +-2^28.",
    note="T1 decoder is driven the way t2.TileDecoder drives it (DecodeLayeredWithMode with cumulative PassData.Rate). One known finding: BYPASS without TERMALL (16 of 64 styles) is not decodable; listed in known_findings.json."),
+ "C04": dict(engine="E1 space", design="§4 C04",
+   technique="bounded-exhaustive enumeration of crossed configuration products (values x precision x signedness x components; geometry x levels x code-block x precinct x progression x layers x MCT; noise x sizes) through jpeg2000.Encoder/Decoder",
+   text="V: every image of <= 4 pixels over {MIN,-1,0,1,MAX} for every precision 1..16, signed and unsigned, 1..4 components, MCT, levels 0..2. G: sizes 1..12^2 (thorough 24^2) x levels 0..6 x 5 code-block shapes x 4 precinct shapes x 5 progressions x layers {1,2,3,6} x components x MCT (quick: pairwise-preserving 1/12 rotation). N: noise images at sizes around code-block multiples (this is what exposed the 0xFF-terminated packet header defect). Oracle: samples, width, height, components, precision, signedness.",
+   note="G in quick is a 1/12 sub-product; noise seeds are a finite family. Code-block styles other than 0 are never emitted by the encoder and are covered at component level in C20."),
+ "C19": dict(engine="E1 space", design="§4 C19",
+   technique="bounded-exhaustive enumeration of every tile size for every image size <= 8x8 crossed with components, precision, levels, layers, plus structured larger grids, through jpeg2000.Encoder/Decoder",
+   text="Every (w,h) <= 8x8 x every (TileWidth,TileHeight) in [1..w]x[1..h] (1296 grids) x components {1,3} x P {8,12,16} x levels {0,1,2,5} x layers {1,2,3 with global PCRD + final lossless layer} x {position-coded ramp, noise}; larger sizes with 1..8 tiles per axis, odd tile sizes, last tile 1 sample wide. Failures are classified by an explicit layout predicate so that only the recorded coordinate-system defect is suppressed.",
+   note="Known finding (not repaired: needs a rewrite of tile coordinate handling in encoder and packet decoder): tile grids whose tile-local and global layouts differ. The check still fails on any violation among layout-equivalent grids."),
 }
 NOT_APPLICABLE = {}
 
